@@ -403,10 +403,13 @@ class Ctx:
 
 
 def load_known():
-    p = os.path.join(ROOT, "known_findings.json")
-    if not os.path.exists(p):
-        return []
-    return json.load(open(p))["findings"]
+    """known_findings.json plus known_findings.d/*.json (all committed; never written at run time)"""
+    import glob
+    out = []
+    for p in [os.path.join(ROOT, "known_findings.json")] + sorted(glob.glob(os.path.join(ROOT, "known_findings.d", "*.json"))):
+        if os.path.exists(p):
+            out += json.load(open(p))["findings"]
+    return out
 
 
 def jsonable(o):
